@@ -1,5 +1,180 @@
 import Bifrost.Model.Signaling
 /-! Base well-formedness invariants of the signaling relay LTS (heap identities unique, maps
-point into the heap, `waitGen ≤ gen`, …), shared by C20, C22, C24, C25. -/
+point into the heap, `waitGen ≤ gen`, …), shared by C24, C25: primitive "view" lemmas about the
+getters/setters of the model. -/
 namespace Bifrost
+namespace SigReg
+open Bifrost.Sig
+
+/-! ### generic list lemmas -/
+
+theorem find?_map_upd {α : Type} (key : α → Nat) (l : List α) (t : α) (x : Nat) :
+    (l.map fun y => if key y = key t then t else y).find? (fun y => decide (key y = x))
+      = if x = key t then (l.find? (fun y => decide (key y = x))).map (fun _ => t)
+        else l.find? (fun y => decide (key y = x)) := by
+  induction l with
+  | nil => simp
+  | cons a l ih =>
+    simp only [List.map_cons, List.find?_cons]
+    grind
+
+theorem map_key_map_upd {α : Type} (key : α → Nat) (l : List α) (t : α) :
+    (l.map fun y => if key y = key t then t else y).map key = l.map key := by
+  induction l with
+  | nil => simp
+  | cons a l ih => simp only [List.map_cons, ih]; grind
+
+theorem find?_key_none {α κ : Type} [DecidableEq κ] (key : α → κ) (l : List α) (x : κ) :
+    l.find? (fun y => decide (key y = x)) = none ↔ x ∉ l.map key := by
+  simp [List.find?_eq_none]
+
+theorem find?_key_mem {α κ : Type} [DecidableEq κ] (key : α → κ) (l : List α) (h : (l.map key).Nodup) (a : α) (ha : a ∈ l) :
+    l.find? (fun y => decide (key y = key a)) = some a := by
+  induction l with
+  | nil => simp at ha
+  | cons b l ih =>
+    simp only [List.map_cons, List.nodup_cons] at h
+    simp only [List.find?_cons]
+    grind
+
+theorem find?_key_some {α κ : Type} [DecidableEq κ] (key : α → κ) (l : List α) (x : κ) (a : α)
+    (h : l.find? (fun y => decide (key y = x)) = some a) : key a = x ∧ a ∈ l := by
+  have h1 := List.find?_some h
+  have h2 := List.mem_of_find?_eq_some h
+  simp at h1
+  exact ⟨h1, h2⟩
+
+theorem find?_key_append_fresh {α κ : Type} [DecidableEq κ] (key : α → κ) (l : List α) (a : α) (x : κ)
+    (h : l.find? (fun y => decide (key y = key a)) = none) :
+    (l ++ [a]).find? (fun y => decide (key y = x))
+      = if x = key a then some a else l.find? (fun y => decide (key y = x)) := by
+  simp only [List.find?_append, List.find?_cons, List.find?_nil]
+  by_cases hx : x = key a
+  · subst hx; simp [h]
+  · have : ¬ key a = x := fun h => hx h.symm
+    simp [hx, this]
+
+theorem find?_key_filter_ne {α κ : Type} [DecidableEq κ] (key : α → κ) (l : List α) (k x : κ) :
+    (l.filter (fun y => decide (key y ≠ k))).find? (fun y => decide (key y = x))
+      = if x = k then none else l.find? (fun y => decide (key y = x)) := by
+  induction l with
+  | nil => simp
+  | cons a l ih =>
+    simp only [List.filter_cons, List.find?_cons]
+    grind
+
+theorem mem_insertSorted (x y : Nat) (l : List Nat) : y ∈ insertSorted x l ↔ y = x ∨ y ∈ l := by
+  induction l with
+  | nil => simp [insertSorted]
+  | cons a l ih => simp only [insertSorted]; grind
+
+/-! ### getters -/
+
+theorem getTkr_tid {s : State} {x : Nat} {t : Tkr} (h : getTkr s x = some t) : t.tid = x :=
+  (find?_key_some Tkr.tid _ _ _ h).1
+theorem getSess_sid {s : State} {x : Nat} {t : Sess} (h : getSess s x = some t) : t.sid = x :=
+  (find?_key_some Sess.sid _ _ _ h).1
+theorem getSCall_id {s : State} {x : Nat} {t : SCall} (h : getSCall s x = some t) : t.id = x :=
+  (find?_key_some SCall.id _ _ _ h).1
+theorem getLCall_id {s : State} {x : Nat} {t : LCall} (h : getLCall s x = some t) : t.id = x :=
+  (find?_key_some LCall.id _ _ _ h).1
+theorem getSCall_mem {s : State} {x : Nat} {t : SCall} (h : getSCall s x = some t) : t ∈ s.scalls :=
+  (find?_key_some SCall.id _ _ _ h).2
+theorem getLCall_mem {s : State} {x : Nat} {t : LCall} (h : getLCall s x = some t) : t ∈ s.lcalls :=
+  (find?_key_some LCall.id _ _ _ h).2
+
+theorem mem_getSCall {s : State} (h : (s.scalls.map (·.id)).Nodup) {c : SCall} (hc : c ∈ s.scalls) :
+    getSCall s c.id = some c := find?_key_mem SCall.id _ h c hc
+theorem mem_getLCall {s : State} (h : (s.lcalls.map (·.id)).Nodup) {c : LCall} (hc : c ∈ s.lcalls) :
+    getLCall s c.id = some c := find?_key_mem LCall.id _ h c hc
+theorem mem_lookupPeer {s : State} (h : (s.peerMap.map (·.1)).Nodup) {p x : Nat} (hc : (p, x) ∈ s.peerMap) :
+    lookupPeer s p = some x := by
+  have := find?_key_mem Prod.fst _ h (p, x) hc
+  simp only [lookupPeer]
+  simp at this
+  simp [this]
+
+theorem getTkr_congr {s s' : State} (h : s'.tkrs = s.tkrs) (x : Nat) : getTkr s' x = getTkr s x := by
+  simp [getTkr, h]
+theorem getSess_congr {s s' : State} (h : s'.sesss = s.sesss) (x : Nat) : getSess s' x = getSess s x := by
+  simp [getSess, h]
+theorem getSCall_congr {s s' : State} (h : s'.scalls = s.scalls) (x : Nat) : getSCall s' x = getSCall s x := by
+  simp [getSCall, h]
+theorem getLCall_congr {s s' : State} (h : s'.lcalls = s.lcalls) (x : Nat) : getLCall s' x = getLCall s x := by
+  simp [getLCall, h]
+theorem lookupPeer_congr {s s' : State} (h : s'.peerMap = s.peerMap) (x : Nat) : lookupPeer s' x = lookupPeer s x := by
+  simp [lookupPeer, h]
+theorem lookupSess_congr {s s' : State} (h : s'.sessMap = s.sessMap) (x : Nat × Nat) : lookupSess s' x = lookupSess s x := by
+  simp [lookupSess, h]
+
+/-! ### setters -/
+
+@[simp, grind =] theorem getTkr_setTkr (s : State) (t : Tkr) (x : Nat) :
+    getTkr (setTkr s t) x = if x = t.tid then (getTkr s x).map (fun _ => t) else getTkr s x :=
+  find?_map_upd Tkr.tid s.tkrs t x
+@[simp, grind =] theorem getSess_setSess (s : State) (t : Sess) (x : Nat) :
+    getSess (setSess s t) x = if x = t.sid then (getSess s x).map (fun _ => t) else getSess s x :=
+  find?_map_upd Sess.sid s.sesss t x
+@[simp, grind =] theorem getSCall_setSCall (s : State) (t : SCall) (x : Nat) :
+    getSCall (setSCall s t) x = if x = t.id then (getSCall s x).map (fun _ => t) else getSCall s x :=
+  find?_map_upd SCall.id s.scalls t x
+@[simp, grind =] theorem getLCall_setLCall (s : State) (t : LCall) (x : Nat) :
+    getLCall (setLCall s t) x = if x = t.id then (getLCall s x).map (fun _ => t) else getLCall s x :=
+  find?_map_upd LCall.id s.lcalls t x
+
+@[simp] theorem scalls_ids_setSCall (s : State) (t : SCall) :
+    (setSCall s t).scalls.map (·.id) = s.scalls.map (·.id) := map_key_map_upd SCall.id s.scalls t
+@[simp] theorem lcalls_ids_setLCall (s : State) (t : LCall) :
+    (setLCall s t).lcalls.map (·.id) = s.lcalls.map (·.id) := map_key_map_upd LCall.id s.lcalls t
+
+@[simp, grind =] theorem getSess_setTkr (s : State) (t : Tkr) (x : Nat) : getSess (setTkr s t) x = getSess s x := rfl
+@[simp, grind =] theorem getSCall_setTkr (s : State) (t : Tkr) (x : Nat) : getSCall (setTkr s t) x = getSCall s x := rfl
+@[simp, grind =] theorem getLCall_setTkr (s : State) (t : Tkr) (x : Nat) : getLCall (setTkr s t) x = getLCall s x := rfl
+@[simp, grind =] theorem lookupPeer_setTkr (s : State) (t : Tkr) (x : Nat) : lookupPeer (setTkr s t) x = lookupPeer s x := rfl
+@[simp, grind =] theorem lookupSess_setTkr (s : State) (t : Tkr) (x : Nat × Nat) : lookupSess (setTkr s t) x = lookupSess s x := rfl
+@[simp, grind =] theorem peerMap_setTkr (s : State) (t : Tkr) : (setTkr s t).peerMap = s.peerMap := rfl
+@[simp, grind =] theorem sesss_setTkr (s : State) (t : Tkr) : (setTkr s t).sesss = s.sesss := rfl
+@[simp, grind =] theorem sessMap_setTkr (s : State) (t : Tkr) : (setTkr s t).sessMap = s.sessMap := rfl
+@[simp, grind =] theorem scalls_setTkr (s : State) (t : Tkr) : (setTkr s t).scalls = s.scalls := rfl
+@[simp, grind =] theorem lcalls_setTkr (s : State) (t : Tkr) : (setTkr s t).lcalls = s.lcalls := rfl
+@[simp, grind =] theorem next_setTkr (s : State) (t : Tkr) : (setTkr s t).next = s.next := rfl
+@[simp, grind =] theorem accepted_setTkr (s : State) (t : Tkr) : (setTkr s t).accepted = s.accepted := rfl
+@[simp, grind =] theorem getTkr_setSess (s : State) (t : Sess) (x : Nat) : getTkr (setSess s t) x = getTkr s x := rfl
+@[simp, grind =] theorem getSCall_setSess (s : State) (t : Sess) (x : Nat) : getSCall (setSess s t) x = getSCall s x := rfl
+@[simp, grind =] theorem getLCall_setSess (s : State) (t : Sess) (x : Nat) : getLCall (setSess s t) x = getLCall s x := rfl
+@[simp, grind =] theorem lookupPeer_setSess (s : State) (t : Sess) (x : Nat) : lookupPeer (setSess s t) x = lookupPeer s x := rfl
+@[simp, grind =] theorem lookupSess_setSess (s : State) (t : Sess) (x : Nat × Nat) : lookupSess (setSess s t) x = lookupSess s x := rfl
+@[simp, grind =] theorem tkrs_setSess (s : State) (t : Sess) : (setSess s t).tkrs = s.tkrs := rfl
+@[simp, grind =] theorem peerMap_setSess (s : State) (t : Sess) : (setSess s t).peerMap = s.peerMap := rfl
+@[simp, grind =] theorem sessMap_setSess (s : State) (t : Sess) : (setSess s t).sessMap = s.sessMap := rfl
+@[simp, grind =] theorem scalls_setSess (s : State) (t : Sess) : (setSess s t).scalls = s.scalls := rfl
+@[simp, grind =] theorem lcalls_setSess (s : State) (t : Sess) : (setSess s t).lcalls = s.lcalls := rfl
+@[simp, grind =] theorem next_setSess (s : State) (t : Sess) : (setSess s t).next = s.next := rfl
+@[simp, grind =] theorem accepted_setSess (s : State) (t : Sess) : (setSess s t).accepted = s.accepted := rfl
+@[simp, grind =] theorem getTkr_setSCall (s : State) (t : SCall) (x : Nat) : getTkr (setSCall s t) x = getTkr s x := rfl
+@[simp, grind =] theorem getSess_setSCall (s : State) (t : SCall) (x : Nat) : getSess (setSCall s t) x = getSess s x := rfl
+@[simp, grind =] theorem getLCall_setSCall (s : State) (t : SCall) (x : Nat) : getLCall (setSCall s t) x = getLCall s x := rfl
+@[simp, grind =] theorem lookupPeer_setSCall (s : State) (t : SCall) (x : Nat) : lookupPeer (setSCall s t) x = lookupPeer s x := rfl
+@[simp, grind =] theorem lookupSess_setSCall (s : State) (t : SCall) (x : Nat × Nat) : lookupSess (setSCall s t) x = lookupSess s x := rfl
+@[simp, grind =] theorem tkrs_setSCall (s : State) (t : SCall) : (setSCall s t).tkrs = s.tkrs := rfl
+@[simp, grind =] theorem peerMap_setSCall (s : State) (t : SCall) : (setSCall s t).peerMap = s.peerMap := rfl
+@[simp, grind =] theorem sesss_setSCall (s : State) (t : SCall) : (setSCall s t).sesss = s.sesss := rfl
+@[simp, grind =] theorem sessMap_setSCall (s : State) (t : SCall) : (setSCall s t).sessMap = s.sessMap := rfl
+@[simp, grind =] theorem lcalls_setSCall (s : State) (t : SCall) : (setSCall s t).lcalls = s.lcalls := rfl
+@[simp, grind =] theorem next_setSCall (s : State) (t : SCall) : (setSCall s t).next = s.next := rfl
+@[simp, grind =] theorem accepted_setSCall (s : State) (t : SCall) : (setSCall s t).accepted = s.accepted := rfl
+@[simp, grind =] theorem getTkr_setLCall (s : State) (t : LCall) (x : Nat) : getTkr (setLCall s t) x = getTkr s x := rfl
+@[simp, grind =] theorem getSess_setLCall (s : State) (t : LCall) (x : Nat) : getSess (setLCall s t) x = getSess s x := rfl
+@[simp, grind =] theorem getSCall_setLCall (s : State) (t : LCall) (x : Nat) : getSCall (setLCall s t) x = getSCall s x := rfl
+@[simp, grind =] theorem lookupPeer_setLCall (s : State) (t : LCall) (x : Nat) : lookupPeer (setLCall s t) x = lookupPeer s x := rfl
+@[simp, grind =] theorem lookupSess_setLCall (s : State) (t : LCall) (x : Nat × Nat) : lookupSess (setLCall s t) x = lookupSess s x := rfl
+@[simp, grind =] theorem tkrs_setLCall (s : State) (t : LCall) : (setLCall s t).tkrs = s.tkrs := rfl
+@[simp, grind =] theorem peerMap_setLCall (s : State) (t : LCall) : (setLCall s t).peerMap = s.peerMap := rfl
+@[simp, grind =] theorem sesss_setLCall (s : State) (t : LCall) : (setLCall s t).sesss = s.sesss := rfl
+@[simp, grind =] theorem sessMap_setLCall (s : State) (t : LCall) : (setLCall s t).sessMap = s.sessMap := rfl
+@[simp, grind =] theorem scalls_setLCall (s : State) (t : LCall) : (setLCall s t).scalls = s.scalls := rfl
+@[simp, grind =] theorem next_setLCall (s : State) (t : LCall) : (setLCall s t).next = s.next := rfl
+@[simp, grind =] theorem accepted_setLCall (s : State) (t : LCall) : (setLCall s t).accepted = s.accepted := rfl
+
+end SigReg
 end Bifrost
